@@ -15,7 +15,7 @@ func (s *BadgerStore) VerifRenewCache() error {
 	opts := badger.DefaultOptions("").WithInMemory(true)
 	opts = opts.WithCompression(options.None).WithBlockCacheSize(0).WithIndexCacheSize(0)
 	opts = opts.WithMetricsEnabled(false).WithLoggingLevel(badger.ERROR)
-	opts = opts.WithNumCompactors(2).WithMemTableSize(128 << 10).WithNumMemtables(2)
+	opts = opts.WithNumCompactors(2).WithMemTableSize(256 << 10).WithNumMemtables(2)
 	opts = opts.WithBaseTableSize(256 << 10).WithValueThreshold(8 << 10)
 	db, err := badger.Open(opts)
 	if err != nil {
